@@ -42,7 +42,7 @@ def histories(prop, rng, tier):
     else:
         hs += sweep
     snippets = sx.failing_snippets(rng)
-    n = 60 if tier == "quick" else 1500
+    n = 60 if tier == "quick" else 4000
     for _ in range(n):
         hs.append(sx.gen_history(rng, snippets))
     return hs
@@ -131,7 +131,7 @@ def make(prop, theorems, *, model_notes=None, refuted_full=None, driver_exe=None
             sx.warm_up()
             extra += sx.coverage_histories(rng)
         snippets = sx.failing_snippets(rng)
-        n = 40 if tier == "quick" else 600
+        n = 40 if tier == "quick" else 1500
         if broken:
             n *= 3
         for _ in range(n):
